@@ -403,7 +403,9 @@ func TestVerif_C55(t *testing.T) {
 	}
 	backupFSTestHook = nil
 
+	tb := time.Now()
 	c55Binary(t, all, res, recs)
+	res.Count("ms_binary_phase", int(time.Since(tb).Milliseconds()))
 	res.Save("")
 }
 
@@ -637,28 +639,27 @@ func c55Binary(t *testing.T, all []*c55Script, res *kit.Result, recs *kit.NDJSON
 	res.Count("binary_candidates", len(cand))
 	rng := kit.Rand(55)
 	rng.Shuffle(len(cand), func(i, j int) { cand[i], cand[j] = cand[j], cand[i] })
-	// make sure clean, missing-target and permission scripts are all present
-	want := kit.Pick(10, 60)
-	var pick []*c55Script
-	quota := map[string]int{}
+	// round robin over the fault classes so that clean, missing-target and permission scripts are all present
+	want := kit.Pick(6, 40)
+	byClass := map[string][]*c55Script{}
 	for _, s := range cand {
 		cls := "clean"
 		for _, f := range s.Fault {
-			if f != "none" {
+			if f != "none" && (cls == "clean" || f == "lstat_err") {
 				cls = f
 			}
 		}
-		lim := want / 3
-		if cls == "clean" {
-			lim = want / 5
-		}
-		if quota[cls] >= lim+1 {
-			continue
-		}
-		quota[cls]++
-		pick = append(pick, s)
-		if len(pick) >= want {
-			break
+		byClass[cls] = append(byClass[cls], s)
+	}
+	var pick []*c55Script
+	for round := 0; len(pick) < want && round < len(cand); round++ {
+		for _, cls := range []string{"openread_err", "target_missing", "clean", "lstat_err"} {
+			if cls == "clean" && round%3 != 0 {
+				continue
+			}
+			if l := byClass[cls]; round < len(l) && len(pick) < want {
+				pick = append(pick, l[round])
+			}
 		}
 	}
 	for n, s := range pick {
@@ -693,7 +694,9 @@ func c55Binary(t *testing.T, all []*c55Script, res *kit.Result, recs *kit.NDJSON
 			cmd.SysProcAttr = &syscall.SysProcAttr{Credential: &syscall.Credential{Uid: uid, Gid: uid}}
 			_ = os.Chmod(root, 0o777)
 		}
+		tr0 := time.Now()
 		out, _ := cmd.CombinedOutput()
+		res.Count("ms_binary_runs", int(time.Since(tr0).Milliseconds()))
 		status := -1
 		if cmd.ProcessState != nil {
 			status = cmd.ProcessState.ExitCode()
